@@ -151,7 +151,7 @@ func (w *world) Run(t *rt.Tape, trace bool) *core.Result {
 	var circ *circuit.Circuit
 	var src string
 	deep := false
-	if t.Choose(rt.SGen, map[string]int{"thorough": 100}[w.tier]+map[bool]int{true: 250}[w.tier != "thorough"]) == 0 {
+	if t.Choose(rt.SGen, map[string]int{"thorough": 100}[w.tier]+map[bool]int{true: 400}[w.tier != "thorough"]) == 0 {
 		deep = true
 		// a long sequential computation: an AND depth around 2^16 (iterated hashes and modular
 		// exponentiations compile to such chains; every level is a round of the protocol)
@@ -178,7 +178,7 @@ func (w *world) Run(t *rt.Tape, trace bool) *core.Result {
 	in := gen.Inputs(t, circ)
 	want := gen.Eval(circ, in)
 	tripleN := []int{0, 1, 63, 64, 65, 100, 127, 129, 1000, 4095, 4097}[t.Choose(rt.SGen, 11)]
-	if t.Choose(rt.SGen, 8) == 0 {
+	if t.Choose(rt.SGen, 16) == 0 {
 		// more than the first batches of the shipped configuration hold (4096 + 8192 triples): the
 		// producer's third and later batches are handed out too
 		tripleN = []int{12289, 13000, 20481, 30000}[t.Choose(rt.SGen, 4)]
